@@ -248,6 +248,7 @@ class UnusedTranslator:
             mapping[head] = UnusedTranslator.Mapper(
                 UniqueVariables(rules[0]), prg.index(rules[0]), list(hlit.atom.symbol.arguments), blit.atom.symbol
             )
+            break  # one copy at a time (chains of copies), execute iterates until nothing changes
 
         used: set[int] = set()
 
